@@ -1077,6 +1077,8 @@ macro_rules! curve_impl {
 
 pub mod g1;
 pub mod g2;
+#[cfg(feature = "verif")]
+pub mod toy;
 
 pub use self::g1::*;
 pub use self::g2::*;
